@@ -1,6 +1,7 @@
 package vuego
 
 import (
+	"strconv"
 	"strings"
 )
 
@@ -16,6 +17,7 @@ import (
 //verif:harness VerifC11_Cycles confirmbounds quick.maxpaths=20000 thorough.maxpaths=100000 timeout=2400 steps=60000000 depth=3000
 //verif:harness VerifC11_TemplateBytes quick.maxpaths=100000 thorough.maxpaths=600000 timeout=3000 unwind=64 steps=10000000
 //verif:harness VerifC11_CallFunc quick.maxpaths=60000 thorough.maxpaths=300000 timeout=2400
+//verif:harness VerifC11_ManyPaths confirmbounds quick.maxpaths=2000 thorough.maxpaths=2000 timeout=1800 steps=200000000
 //verif:harness VerifC11_Features confirmbounds quick.maxpaths=20000 thorough.maxpaths=100000 timeout=2400 steps=20000000
 
 // VerifC11_Kernels: the string kernels behind paths, expressions and loops
@@ -326,4 +328,30 @@ func VerifC11_Features() {
 	if k == 2 && err == nil {
 		zzAssert(strings.Contains(out, "|n|7|p"), "C11.features.promoted-fields")
 	}
+}
+
+// VerifC11_ManyPaths: a process that has resolved more distinct dotted and
+// bracketed paths than any internal cache holds keeps rendering: every call
+// returns.
+func VerifC11_ManyPaths() {
+	n := []int{200, 300, 520}[zzChoice("paths", zzBound("sizes", 2, 3))]
+	row := map[string]any{}
+	var body strings.Builder
+	for k := 0; k < n; k++ {
+		key := "k" + strconv.Itoa(k)
+		row[key] = k
+		if k%2 == 0 {
+			body.WriteString("{{ row." + key + " }} ")
+		} else {
+			body.WriteString("{{ row['" + key + "'] }} ")
+		}
+	}
+	data := map[string]any{"row": row, "a": map[string]any{"b": []any{"deep"}}}
+	entry := zzEntry()
+	out, err := zzRenderVia(entry, nil, nil, "<p>"+body.String()+"</p>", data)
+	zzAssert(err == nil && strings.Contains(out, " "+strconv.Itoa(n-1)+" "), "C11.manypaths.first-render")
+	// and afterwards, on a new engine in the same process
+	out2, err2 := zzRenderVia(entry, nil, nil, `<p :title="a.b[0]">{{ a.b[0] }} {{ row.k1 }} {{ a['b'][0] }}</p>`, data)
+	zzNote("out2", out2)
+	zzAssert(err2 == nil && strings.Contains(out2, "deep 1 deep"), "C11.manypaths.later-render")
 }
